@@ -337,6 +337,30 @@ func c14Cancel(p *core.Prog, r *core.Report) {
 		})
 		r.Check(ok, "C14-R4", fname(f), "onCancel only for context.Canceled", p.Pos(f.Pos()), "deadline expiry does not send a cancel frame", "cancel frames are sent for deadline expiry as well")
 	}
+	// every way the caller's wait observes its context error passes onCtxErr
+	// (the only place a cancel frame is sent): a context cancelled before the
+	// wait starts is reported as well as one cancelled during it.
+	if f := mustFunc(p, r, "", "messageExchange", "recvPeerFrame"); f != nil {
+		n := 0
+		isCtxRet := func(i ssa.Instruction) bool {
+			ret, isRet := i.(*ssa.Return)
+			if !isRet || len(ret.Results) != 2 {
+				return false
+			}
+			return callResult(ret.Results[1], "GetContextError") != nil
+		}
+		core.EachInstr(f, func(i ssa.Instruction) {
+			if isCtxRet(i) {
+				n++
+			}
+		})
+		res := core.ReachAvoiding(f, nil, isCtxRet, func(i ssa.Instruction) bool {
+			_, ok := core.IsCall(i, "messageExchange.onCtxErr")
+			return ok
+		}, nil)
+		r.Check(n >= 2 && !res.Found, "C14-R4", fname(f), "every context-error return of the response wait passes onCtxErr", p.Pos(f.Pos()),
+			fmt.Sprintf("%d returns of GetContextError, each behind onCtxErr", n), "the wait can report the caller's cancellation without onCtxErr: no cancel frame is sent and the handler keeps running until its ttl: "+p.TrailString(res))
+	}
 	if f := mustFunc(p, r, "", "Connection", "handleFrameRelay"); f != nil {
 		// the early `return true` for cancel frames is guarded by !PropagateCancel and type == cancel
 		ok := false
